@@ -2,6 +2,7 @@ package chainsim
 
 import (
 	"fmt"
+	"strings"
 	"math/big"
 	"math/rand/v2"
 
@@ -49,6 +50,8 @@ type TxGen struct {
 	makers []maker
 	// Submitted/executed counters by method and outcome.
 	Stats map[string]int
+	// Notes counts successful transactions by their harness note (e.g. key rotations).
+	Notes map[string]int
 	// FailLogs counts failure messages of transactions meant to be valid (tuning aid).
 	FailLogs map[string]int
 }
@@ -61,7 +64,7 @@ type maker struct {
 
 // NewTxGen creates the generator for a history.
 func NewTxGen(h *History) *TxGen {
-	g := &TxGen{h: h, rng: rand.New(rand.NewPCG(h.Cfg.Seed, 0x7a6e0001)), Stats: map[string]int{}, FailLogs: map[string]int{}}
+	g := &TxGen{h: h, rng: rand.New(rand.NewPCG(h.Cfg.Seed, 0x7a6e0001)), Stats: map[string]int{}, FailLogs: map[string]int{}, Notes: map[string]int{}}
 	w := func(base int, prof string, boost int) int {
 		if h.Cfg.Profile == prof {
 			return base * boost
@@ -767,6 +770,9 @@ func (g *TxGen) Observe(gtxs []*GenTx, res *BlockResult) {
 			outcome = "ok"
 			if gt.OnSuccess != nil {
 				gt.OnSuccess()
+			}
+			if strings.Contains(gt.Note, "key-rotation") {
+				g.Notes["key-rotation"]++
 			}
 		}
 		g.Stats[fmt.Sprintf("%s/%s/%s", gt.Method, gt.Intent, outcome)]++
